@@ -74,3 +74,9 @@ CASES.append(Case(H36 + "::max_hybrid36_number", "widths 1..6",
                   ensures=[("value", lambda I, env: natives.eq(I, env.vars["result"], max36(env.vars["length"])))]))
 
 MIN_OBLIGATIONS = 10
+
+
+from pyvc.api import bounded_via_script
+bounded = bounded_via_script("C07")
+ASSUMPTIONS.append("bounded stand-in (labelled, not a proof): PDB write/read round trip over boundary values of every fixed-width column, "
+                   "hybrid-36 id ranges, refused inputs and CONECT on 3 atoms (bounded/C07.py)")
